@@ -18,6 +18,22 @@ func c05Cfg(t map[string]any) extCfg {
 	sizes := map[string][3]int64{"1k": {2 * MiB, 8 * MiB, 20 * MiB}, "2k": {4 * MiB, 24 * MiB, 72 * MiB}, "4k": {8 * MiB, 64 * MiB, 136 * MiB}}
 	cfg.SPB = map[string]int{"1k": 2, "2k": 4, "4k": 8}[str(t, "blk")]
 	cfg.Size = sizes[str(t, "blk")][map[string]int{"min": 0, "one": 1, "multi": 2}[str(t, "size")]]
+	if str(t, "size") == "min" {
+		cfg.Journal = false // the smallest volumes have no room for the 4096-block journal (refused cleanly)
+	}
+	if strings.Contains(cfg.Extra, "bpg256") {
+		// a 4096-block journal does not fit the four extents of the journal inode when a group has 256
+		// blocks: the library refuses that cleanly; the small-group layout is exercised without journal
+		cfg.Journal = false
+	}
+	if str(t, "size") != "multi" && cfg.SPB == 2 && !strings.Contains(cfg.Extra, "noresize") && !strings.Contains(cfg.Extra, "bpg") {
+		// a single block group has no backup group for the resize inode: refused cleanly by the library
+		if cfg.Extra == "" {
+			cfg.Extra = "noresize"
+		} else {
+			cfg.Extra += ",noresize"
+		}
+	}
 	if cfg.SPB != 2 && !strings.Contains(cfg.Extra, "noresize") {
 		// the library refuses resize-inode layouts it cannot build for non-1KiB blocks; that clean
 		// refusal is not what this check is about
@@ -105,8 +121,25 @@ func C05(c *core.Ctx) {
 			c.Sample(map[string]any{"cfg": jobs[i].cfg, "label": jobs[i].label, "ops": jobs[i].ops, "fsck_exit_codes": fsckCodes(behsOut[i])})
 		}
 	}
+	strad := map[string]int{}
+	for i, evs := range good {
+		for _, ev := range evs {
+			if ev["a"] == "Straddle" {
+				k := fmt.Sprintf("spb%d/%s/%d:", goodJobs[i].cfg.SPB, goodJobs[i].cfg.Extra, goodJobs[i].cfg.Size>>20)
+				if ev["straddle"] == true {
+					strad[k+"reached"]++
+				} else {
+					strad[k+"not-reached"]++
+				}
+			}
+		}
+	}
+	c.Extra["straddle_macro_boundary"] = strad
 	c.Extra["create_tuples"] = len(tuples)
 	c.Extra["create_refused"] = refused
+	if len(refused)*2 > len(tuples) {
+		c.Broken("vacuous: Create refused %d of %d parameter tuples", len(refused), len(tuples))
+	}
 	if len(good) == 0 {
 		c.Broken("no configuration could be created")
 		return
